@@ -72,6 +72,9 @@ pub struct Stats {
     pub harness_errors: Vec<String>,
     #[serde(default)]
     pub frozen: bool,
+    /// the first failing input of a shard, before shrinking (fallback when the shrunk input does not fail again)
+    #[serde(skip)]
+    pub first_failure: Option<Vec<u8>>,
 }
 
 impl Stats {
@@ -266,6 +269,9 @@ pub fn run_shard<E: Engine>(
             }
         }
         if let Some(f) = bad.first() {
+            if !st.frozen {
+                st.first_failure = Some(bytes.clone());
+            }
             st.frozen = true;
             return Err(TestCaseError::fail(f.sig.clone()));
         }
@@ -275,18 +281,26 @@ pub fn run_shard<E: Engine>(
     match result {
         Ok(()) => (stats, None),
         Err(TestError::Fail(_, bytes)) => {
-            let case = eng.decode(&bytes);
-            let o = eng.eval(&case);
-            let mut hits = BTreeMap::new();
-            let f = unlisted(prop, &o, known, &mut hits).first().cloned().cloned();
-            match f {
-                Some(finding) => (stats, Some(Violation { case, finding })),
-                None => {
-                    let mut stats = stats;
-                    stats.harness_errors.push("a failure did not reproduce from its shrunk input (non-determinism)".into());
-                    (stats, None)
+            // re-judge the shrunk input; code whose behaviour depends on the wall clock may not fail again on the
+            // same input, so try a few times and fall back to the first failing input of the shard
+            let mut candidates: Vec<Vec<u8>> = vec![bytes];
+            if let Some(first) = stats.first_failure.clone() {
+                candidates.push(first);
+            }
+            for cand in candidates {
+                for _ in 0..3 {
+                    let case = eng.decode(&cand);
+                    let o = eng.eval(&case);
+                    let mut hits = BTreeMap::new();
+                    let f = unlisted(prop, &o, known, &mut hits).first().cloned().cloned();
+                    if let Some(finding) = f {
+                        return (stats, Some(Violation { case, finding }));
+                    }
                 }
             }
+            let mut stats = stats;
+            stats.harness_errors.push("a failure did not reproduce from its shrunk input nor from the original one (non-determinism)".into());
+            (stats, None)
         }
         Err(TestError::Abort(r)) => {
             let mut stats = stats;
